@@ -1035,6 +1035,16 @@ def _glued(a, b):
     return False
 
 
+_PLAIN_NUM = re.compile(r"(\d[\d_]*(\.\d[\d_]*)?|\.\d[\d_]*)([eE][+-]?\d[\d_]*)?")
+
+
+def _num_unit(a, b):
+    """a plain decimal integer / float (no radix prefix, no trailing dot, no `1.e3`, which this lexer reads as `1.` with
+    a suffix: finding N01's territory) followed by a time / imaginary unit"""
+    (ka, ta), (kb, tb) = a, b
+    return ka == "num" and kb == "ident" and tb in UNITS and _PLAIN_NUM.fullmatch(ta) is not None
+
+
 def relayout(src, seed, lex_line=None):
     """the same non-trivia tokens with different admissible whitespace / comments.
     Kept: a line break after pragma / annotation / line-comment lexemes; at least one separator
@@ -1058,10 +1068,19 @@ def relayout(src, seed, lex_line=None):
         return src
     out = [_rand_sep(r, True) if r.random() < 0.5 else ""]
     for i, tok in enumerate(nt):
+        if tok[0] == "version":
+            # the blanks between `OPENQASM` and the version number are layout too
+            m = re.fullmatch(r"OPENQASM(\s+)(\S.*)", tok[1], flags=re.S)
+            if m:
+                tok = (tok[0], "OPENQASM" + r.choice([" ", "\t", "  ", "\n", " \t ", "\n  "]) + m.group(2))
         out.append(tok[1])
         ends_line = tok[0] in ("pragma", "annot")
         if i + 1 < len(nt):
-            if gaps[i]:
+            if _num_unit(tok, nt[i + 1]):
+                # a decimal number and its time / imaginary unit are two lexemes with or without blanks between them
+                # (`.5ns` = `.5 ns`): the gap is free in BOTH directions
+                sep = r.choice(["", "", " ", "  ", "\t"])
+            elif gaps[i]:
                 sep = _rand_sep(r, False)
             elif _glued(tok, nt[i + 1]):
                 sep = ""
